@@ -4,8 +4,10 @@
    Definitions only; builds on the parse_tag model of TagParse/Model.v.
 
    Leaves (variables, literals, filter chains, translated and nested-template strings) are evaluated by Django's
-   FilterExpression / DynamicFilterExpression; the model takes their values from an environment
-   `env : leaf text -> value` (the harness fills it by evaluating every leaf with Django). *)
+   FilterExpression / DynamicFilterExpression; every function below takes the leaf evaluator as an ABSTRACT
+   parameter `ev : leaf text -> rres value` (= eval_leaf applied to the render context).  The theorems hold for
+   every `ev`; the correspondence instantiates it with a finite table `env` that the harness fills by evaluating
+   every leaf of the case with Django (`ev_of_env`). *)
 From DJC Require Import Lib.Base TagParse.Model.
 
 Inductive value :=
@@ -91,26 +93,28 @@ Fixpoint env_lookup (k : str) (e : env) : option (option value) :=
   | [] => None
   | (k', v) :: r => if str_eqb k k' then Some v else env_lookup k r
   end.
-Definition eval_leaf (e : env) (parts : list part) : rres value :=
-  match env_lookup (leaf_text parts) e with
+Definition ev_of_env (e : env) (t : str) : rres value :=
+  match env_lookup t e with
   | Some (Some v) => ROk v
   | Some None => RErr ELeaf          (* whatever Django raises for this leaf *)
   | None => RErr EOther              (* a leaf text the implementation never produced *)
   end.
+Notation evaluator := (str -> rres value) (only parsing).
+Definition eval_parts (ev : evaluator) (parts : list part) : rres value := ev (leaf_text parts).
 
 (* ---------- TagValueStruct.resolve ---------- *)
 Definition node_spread (n : node) : option spread :=
   match n with NStruct _ sp _ _ => sp | NVal _ => None end.
 
-Fixpoint resolve_node (e : env) (n : node) : rres value :=
+Fixpoint resolve_node (e : evaluator) (n : node) : rres value :=
   match n with
-  | NVal parts => eval_leaf e parts
+  | NVal parts => eval_parts e parts
   | NStruct ty _ ents _ =>
     match ty with
     | TSimple =>
       match ents with
       | [] => RErr EIndex
-      | NVal parts :: _ => eval_leaf e parts
+      | NVal parts :: _ => eval_parts e parts
       | NStruct _ _ _ _ :: _ => RErr ETemplateSyntax
       end
     | TList =>
@@ -180,7 +184,7 @@ Fixpoint extract_flags (allowed : list str) (attrs : list attr) (found : list st
         rbind (extract_flags allowed r found) (fun '(rem, fl) => ROk (a :: rem, fl))
       else if is_some (node_spread (a_value a)) then RErr ETemplateSyntax
       else if str_in v found then RErr ETemplateSyntax
-      else extract_flags allowed r (v :: found)
+      else extract_flags allowed r (found ++ [v])
     end
   end.
 
@@ -218,7 +222,7 @@ Notation param := (option value * value)%type (only parsing).   (* key (any Pyth
 
 Definition key_truthy (k : option str) : bool := match k with Some (_ :: _) => true | _ => false end.
 
-Fixpoint resolve_params_go (e : env) (attrs : list attr) : rres (list param) :=
+Fixpoint resolve_params_go (e : evaluator) (attrs : list attr) : rres (list param) :=
   match attrs with
   | [] => ROk []
   | a :: r =>
@@ -307,7 +311,10 @@ Section Bind.
     match ps with
     | [] => ROk (reg, spec)
     | (Some k, v) :: r =>
-      if is_special k then split_special r reg (dict_set (VStr k) v spec) true
+      if is_special k then
+        (* `if key in invalid_kwargs: raise TypeError(... got multiple values ...)` (fix 8478320) *)
+        if existsb (fun kv => key_eqb (fst kv) (VStr k)) spec then RErr EType
+        else split_special r reg (spec ++ [(VStr k, v)]) true
       else split_special r (reg ++ [(Some k, v)]) spec saw
     | (None, v) :: r =>
       if saw then RErr ESyntax else split_special r (reg ++ [(None, v)]) spec saw
@@ -333,16 +340,21 @@ Section Bind.
     | (Some _, _) :: _ => RErr EOther
     end.
 
-  (* the whole path: tag text -> (args, kwargs, flags, self-closing) *)
-  Definition run_tag (tag : str) (allowed : list str) (e : env) (text : str)
-    : rres (list value * list (value * value) * list str * bool) :=
-    rbind (parse_template_tag tag allowed text) (fun '(attrs, flags, closed) =>
-    rbind (resolve_params_go e attrs) (fun ps0 =>
+  (* resolved parameters -> what the receiver `def render(self, context, *args, **kwargs)` gets *)
+  Definition bind_params (ps0 : list (option value * value)) : rres (list value * list (value * value)) :=
     rbind (str_keys ps0) (fun ps1 =>
     rbind (process_aggregate_kwargs ps1) (fun ps2 =>
     rbind (split_special ps2 [] [] false) (fun '(reg, spec) =>
     rbind (bind_var reg [] [] false) (fun '(args, kw) =>
-    ROk (args, dict_update kw spec, flags, closed))))))).
+    ROk (args, dict_update kw spec))))).
+
+  (* the whole path: tag text -> (args, kwargs, flags, self-closing) *)
+  Definition run_tag (tag : str) (allowed : list str) (e : evaluator) (text : str)
+    : rres (list value * list (value * value) * list str * bool) :=
+    rbind (parse_template_tag tag allowed text) (fun '(attrs, flags, closed) =>
+    rbind (resolve_params_go e attrs) (fun ps0 =>
+    rbind (bind_params ps0) (fun '(args, kw) =>
+    ROk (args, kw, flags, closed)))).
 End Bind.
 
 (* ---------- correspondence ---------- *)
@@ -381,7 +393,7 @@ Definition flags_sim (a b : list str) : bool :=
 Record rcase := mkrcase { rc_tag : str; rc_allowed : list str; rc_env : env; rc_text : str; rc_out : routcome }.
 
 Definition check_run (keywords : list str) (c : rcase) : bool :=
-  match run_tag keywords (rc_tag c) (rc_allowed c) (rc_env c) (rc_text c), rc_out c with
+  match run_tag keywords (rc_tag c) (rc_allowed c) (ev_of_env (rc_env c)) (rc_text c), rc_out c with
   | ROk (args, kw, flags, closed), RGot args' kw' flags' closed' =>
     value_sim 20 (VList args) (VList args') && value_sim 20 (VDict kw) (VDict kw')
     && flags_sim flags flags' && Bool.eqb closed closed'
